@@ -443,7 +443,7 @@ func (x *Decimal) Float(z *big.Float) *big.Float {
 
 	switch x.form {
 	case zero:
-		z.SetPrec(p)
+		z.SetPrec(p).SetInt64(0) // SetPrec(0) above does not clear an infinite z
 		if x.neg != z.Signbit() {
 			z.Neg(z)
 		}
